@@ -111,7 +111,16 @@ func (e *Engine) callFunction(f *frame, fn *ssa.Function, args []Val, bindings [
 		if !e.isSpecFunc(fn) && e.specDepth == 0 {
 			e.Inlined[fn.String()] = true
 		}
+		savedCtx := e.callCtx
+		if e.forced != nil && e.specDepth == 0 && f.split && e.Transparent[fn] {
+			// inlined repository code takes part in path splitting, keyed by its call path
+			e.ctxSeq++
+			e.callCtx = fmt.Sprintf("%s:%s#%d", f.ctx, fn.Name(), e.siteIndex(f, pos))
+			e.splitInlined = true
+		}
 		res, st, rpc := e.runFunc(fn, args, bindings, f.st, nil)
+		e.callCtx = savedCtx
+		e.splitInlined = false
 		f.st = st
 		// the callee may fail to return (explicit panic): continue only where it returns
 		if !rpc.IsTrue() {
@@ -200,6 +209,7 @@ func (e *Engine) useContract(f *frame, fc *FnContract, args []Val, pos token.Pos
 	e.havocLocs(f.st, locs)
 	// allocation counter may have advanced
 	na := X.Fresh("alloc", RefSort)
+	X.FreshBase[na.ID()] = true
 	e.assume(X.Ule(f.st.Alloc, na))
 	f.st.Alloc = na
 	rt := resultType(fc.Fn.Signature)
@@ -214,33 +224,68 @@ func (e *Engine) useContract(f *frame, fc *FnContract, args []Val, pos token.Pos
 	e.freshBase = callBase
 	rs := flatResults(res, fc.Fn.Signature.Results().Len())
 	type def struct {
-		arr, idx, val *smt.Term
+		arr, idx, val, guard *smt.Term
+		lo, hi               int
+		quant                bool
 	}
 	var defs []def
+	// matchDef recognises  hv[i] == t  with hv a fresh havoc array and t free of hv.
+	matchDef := func(cj *smt.Term) (arr, idx, val *smt.Term, ok bool) {
+		if cj.Op != "=" {
+			return
+		}
+		for i := 0; i < 2; i++ {
+			a, b := cj.Args[i], cj.Args[1-i]
+			if a.Op == "select" {
+				if _, isHv := e.havocArr[a.Args[0]]; isHv && !mentions(b, a.Args[0]) {
+					return a.Args[0], a.Args[1], b, true
+				}
+			}
+		}
+		return
+	}
 	for _, cl := range c.Ensures {
 		as := append(append([]Val{}, args...), rs...)
 		for _, of := range cl.OldFn {
 			as = append(as, olds[of])
 		}
 		v, _ := e.evalSpec(pkg, cl.Func, as, f.st)
-		// conjuncts of the form  hv[k] == t  (hv a fresh havoc array, k constant, t free of hv)
-		// define the post-state instead of constraining it
+		// conjuncts that say  object[i] == t  (for one index or for all indices of a range, possibly
+		// under a guard) define the havocked post-state instead of merely constraining it
 		var rest []*smt.Term
 		for _, cj := range conjuncts(v.C[0]) {
-			if cj.Op == "=" {
-				var sel, val *smt.Term
-				for i := 0; i < 2; i++ {
-					a, b := cj.Args[i], cj.Args[1-i]
-					if a.Op == "select" && a.Args[1].IsConst() {
-						if _, ok := e.havocArr[a.Args[0]]; ok && !mentions(b, a.Args[0]) {
-							sel, val = a, b
-						}
+			guard := X.True
+			core := cj
+			if cj.Op == "or" {
+				// guard ==> core   is   (not guard) or core  with exactly one candidate core
+				var others []*smt.Term
+				var cand *smt.Term
+				for _, d := range cj.Args {
+					isCand := false
+					if d.Op == "forall" && d.Name == "range" {
+						_, _, _, isCand = matchDef(d.Args[0])
+					} else {
+						_, _, _, isCand = matchDef(d)
+					}
+					if isCand && cand == nil {
+						cand = d
+					} else {
+						others = append(others, d)
 					}
 				}
-				if sel != nil {
-					defs = append(defs, def{sel.Args[0], sel.Args[1], val})
+				if cand != nil {
+					core = cand
+					guard = X.Not(X.Or(others...))
+				}
+			}
+			if core.Op == "forall" && core.Name == "range" {
+				if arr, idx, val, ok := matchDef(core.Args[0]); ok && idx == core.Bound[0] && !mentions(guard, arr) {
+					defs = append(defs, def{arr, idx, val, guard, core.I1, core.I2, true})
 					continue
 				}
+			} else if arr, idx, val, ok := matchDef(core); ok && !idx.Open() && !mentions(guard, arr) {
+				defs = append(defs, def{arr, idx, val, guard, 0, 0, false})
+				continue
 			}
 			rest = append(rest, cj)
 		}
@@ -250,12 +295,24 @@ func (e *Engine) useContract(f *frame, fc *FnContract, args []Val, pos token.Pos
 		hi := e.havocArr[d.arr]
 		h := e.heap(f.st, hi.key, e.heapSorts[hi.key])
 		obj := X.Select(h, hi.ref)
-		if X.Select(obj, d.idx) == X.Select(d.arr, d.idx) {
-			// the object still holds the unconstrained byte at this index: define it
-			f.st.Heaps[hi.key] = X.Store(h, hi.ref, X.Store(obj, d.idx, d.val))
-		} else {
-			e.assume(X.Eq(X.Select(d.arr, d.idx), d.val))
+		if X.Select(obj, d.idx) != X.Select(d.arr, d.idx) {
+			// the clause constrains something other than the freshly havocked bytes: keep it as a fact
+			fact := X.Eq(X.Select(d.arr, d.idx), d.val)
+			if d.quant {
+				fact = X.ForallRange(d.idx, d.lo, d.hi, fact)
+			}
+			e.assume(X.Implies(d.guard, fact))
+			continue
 		}
+		var nobj *smt.Term
+		if d.quant {
+			w := d.idx.S.W
+			inr := X.And(X.Sle(X.Const(uint64(int64(d.lo)), w), d.idx), X.Slt(d.idx, X.Const(uint64(int64(d.hi)), w)))
+			nobj = X.Lambda(d.idx, X.Ite(X.And(d.guard, inr), d.val, X.Select(obj, d.idx)))
+		} else {
+			nobj = X.Store(obj, d.idx, X.Ite(d.guard, d.val, X.Select(obj, d.idx)))
+		}
+		f.st.Heaps[hi.key] = X.Store(h, hi.ref, nobj)
 	}
 	e.freshBase = savedBase
 	return res
@@ -426,7 +483,9 @@ func (e *Engine) havocLocs(st *State, locs []frameLoc) {
 				nw := X.Fresh("hv", smt.Array(IntSort, leaf))
 				e.havocArr[nw] = havocInfo{k, l.ref}
 				// frame inside the object: indices outside [lo,hi) keep their value
-				if l.lo.IsConst() && l.hi.IsConst() && l.hi.V-l.lo.V <= 512 {
+				if l.hi == X.BVAdd(l.lo, X.Const(1, 64)) {
+					st.Heaps[k] = X.Store(h, l.ref, X.Store(old, l.lo, X.Select(nw, l.lo)))
+				} else if l.lo.IsConst() && l.hi.IsConst() && l.hi.V-l.lo.V <= 512 {
 					arr := old
 					for j := l.lo.V; j < l.hi.V; j++ {
 						jj := X.Const(j, 64)
@@ -434,9 +493,8 @@ func (e *Engine) havocLocs(st *State, locs []frameLoc) {
 					}
 					st.Heaps[k] = X.Store(h, l.ref, arr)
 				} else {
-					j := X.BVar("j", IntSort)
-					e.assume(X.Forall([]*smt.Term{j}, X.Implies(X.Not(X.And(X.Ule(l.lo, j), X.Ult(j, l.hi))), X.Eq(X.Select(nw, j), X.Select(old, j)))))
-					st.Heaps[k] = X.Store(h, l.ref, nw)
+					j := X.BVar("hj", IntSort)
+					st.Heaps[k] = X.Store(h, l.ref, X.Lambda(j, X.Ite(X.And(X.Ule(l.lo, j), X.Ult(j, l.hi)), X.Select(nw, j), X.Select(old, j))))
 				}
 			default:
 				nw := X.Fresh("hv", smt.Array(IntSort, leaf))
@@ -463,6 +521,10 @@ func (e *Engine) quantifier(f *frame, forall bool, args []Val) Val {
 		defer func() { e.pc = saved }()
 		r, _, _ := e.runFunc(clo.Fn, []Val{e.intVal(types.Typ[types.Int], i)}, clo.Bindings, f.st.clone(), nil)
 		return r.C[0]
+	}
+	if lo.IsConst() && hi.IsConst() && sext64(hi.V)-sext64(lo.V) > 8 && sext64(hi.V)-sext64(lo.V) <= 4096 && forall && !e.ExpandAll {
+		j := X.BVar("q", IntSort)
+		return e.boolVal(X.ForallRange(j, int(sext64(lo.V)), int(sext64(hi.V)), body(j)))
 	}
 	if lo.IsConst() && hi.IsConst() && sext64(hi.V)-sext64(lo.V) <= 1024 {
 		var cs []*smt.Term
@@ -593,41 +655,11 @@ func (e *Engine) copyBuiltin(f *frame, x *ssa.Call, args []Val) Val {
 		h := e.heap(f.st, key, c.Sort)
 		sArr := X.Select(h, src.ref())
 		dArr := X.Select(h, dst.ref())
-		var nd *smt.Term
-		if bound > 0 && bound <= 512 && dst.Bound > 0 && dst.Bound <= 512 {
-			// pointwise definition over the (fixed-size) destination object:
-			//   nd[j] = doff <= j < doff+n ? src[soff + (j-doff)] : dst[j]
-			nd = dArr
-			end := X.BVAdd(dst.off(), n)
-			for j := 0; j < dst.Bound; j++ {
-				jj := X.Const(uint64(j), 64)
-				inr := X.And(X.Ule(dst.off(), jj), X.Ult(jj, end))
-				if inr.IsFalse() {
-					continue
-				}
-				val := X.Select(sArr, X.BVAdd(src.off(), X.BVSub(jj, dst.off())))
-				nd = X.Store(nd, jj, X.Ite(inr, val, X.Select(dArr, jj)))
-			}
-		} else if bound > 0 && bound <= 512 {
-			nd = dArr
-			for k := 0; k < bound; k++ {
-				kk := X.Const(uint64(k), 64)
-				di := X.BVAdd(dst.off(), kk)
-				val := X.Select(sArr, X.BVAdd(src.off(), kk))
-				if n.IsConst() {
-					nd = X.Store(nd, di, val)
-				} else {
-					nd = X.Store(nd, di, X.Ite(X.Ult(kk, n), val, X.Select(nd, di)))
-				}
-			}
-		} else {
-			nd = X.Fresh("cp", smt.Array(IntSort, c.Sort))
-			j := X.BVar("j", IntSort)
-			inr := X.And(X.Ule(dst.off(), j), X.Ult(j, X.BVAdd(dst.off(), n)))
-			e.assume(X.Forall([]*smt.Term{j}, X.Ite(inr,
-				X.Eq(X.Select(nd, j), X.Select(sArr, X.BVAdd(src.off(), X.BVSub(j, dst.off())))),
-				X.Eq(X.Select(nd, j), X.Select(dArr, j)))))
-		}
+		// memmove as an array comprehension: nd[j] = doff <= j < doff+n ? src[soff+(j-doff)] : dst[j]
+		_ = bound
+		j := X.BVar("cj", IntSort)
+		inr := X.And(X.Ule(dst.off(), j), X.Ult(j, X.BVAdd(dst.off(), n)))
+		nd := X.Lambda(j, X.Ite(inr, X.Select(sArr, X.BVAdd(src.off(), X.BVSub(j, dst.off()))), X.Select(dArr, j)))
 		e.setHeap(f.st, key, X.Store(h, dst.ref(), nd))
 	}
 	return e.intVal(types.Typ[types.Int], n)
@@ -782,4 +814,17 @@ func mentions(t, x *smt.Term) bool {
 		return false
 	}
 	return rec(t)
+}
+
+// siteIndex numbers call sites within a frame deterministically (by source position order of use).
+func (e *Engine) siteIndex(f *frame, pos token.Pos) int {
+	if f.sites == nil {
+		f.sites = map[token.Pos]int{}
+	}
+	if i, ok := f.sites[pos]; ok {
+		return i
+	}
+	i := len(f.sites)
+	f.sites[pos] = i
+	return i
 }
